@@ -1,13 +1,15 @@
 #!/bin/bash
+# VERIF_HOME / VERIF_REPO: run against a scratch copy of /verif and a scratch worktree of /repo (trial runs in parallel)
+V=${VERIF_HOME:-/verif}; R=${VERIF_REPO:-/repo}
 # usage: tools/try_patch.sh <patch.diff> <Cxx> [<Cxx> ...]   -- apply to /repo, run checks, always revert
 set -u
 P="$(readlink -f "$1")"; shift
-cd /repo || exit 2
+cd $R || exit 2
 if ! git diff --quiet; then echo "repo dirty, refusing"; exit 2; fi
 git apply "$P" || { echo "patch does not apply"; exit 2; }
-trap 'git -C /repo checkout -- . ; (cd /verif && ./check --setup >/dev/null 2>&1)' EXIT
-cd /verif
-export VERIF_EVIDENCE_DIR=/verif/.work/evidence-trial
+trap 'git -C $R checkout -- . ; (cd $V && ./check --setup >/dev/null 2>&1)' EXIT
+cd $V
+export VERIF_EVIDENCE_DIR=$V/.work/evidence-trial
 for p in "$@"; do
   echo "=== $p"; ./check "$p" 2>&1 | grep -E "^(VIOLATION|OK|INCONCLUSIVE|KNOWN|  obligation)" ; echo "exit=${PIPESTATUS[0]}"
 done
